@@ -366,7 +366,7 @@ def _injective_key(eng, key_t, xval, bound, desc):
         return True
     # str(int) : int.to.str is injective on non-negative ints; our to_str adds a sign prefix, injective on all ints
     txt = kt.sexpr()
-    if desc.kind in ("keys", "items") and ("int.to.str" in txt or "str.from_int" in txt) and b.sexpr() in txt:
+    if desc.kind in ("keys", "items") and ("int.to.str" in txt or "str.from_int" in txt or "py_int_str" in txt) and b.sexpr() in txt:
         return _only_through_injective(kt, b)
     return False
 
